@@ -460,6 +460,13 @@ const (
 	seedRef   = "seedref"
 	seedTable = "seedtbl"
 	seedColl  = "seedcoll"
+	// schema-changing document requests (AddField, RemoveField, CreateIndex, ...) aim
+	// at a collection that never holds documents: altering a table whose rows are
+	// being indexed concurrently can crash the server (unsynchronised
+	// Table.colsByID: "fatal error: concurrent map read and map write" between
+	// sql.indexEntryMapperFor in the indexer goroutine and Table.newColumn) - a
+	// defect outside this property that would only make the check flaky
+	ddlColl = "ddlcoll"
 )
 
 func (x *srv) seed(db string) error {
@@ -488,6 +495,10 @@ func (x *srv) seed(db string) error {
 			Indexes: []*protomodel.Index{{Fields: []string{"n"}}}}); err != nil && !strings.Contains(err.Error(), "already exists") {
 			// ("already exists": the step is repeated when the administrative session was lost half-way)
 			return fmt.Errorf("seed collection: %w", err)
+		}
+		if _, err := x.dc.CreateCollection(ctx, &protomodel.CreateCollectionRequest{Name: ddlColl, DocumentIdFieldName: "_id",
+			Fields: []*protomodel.Field{{Name: "tag", Type: protomodel.FieldType_STRING}}}); err != nil && !strings.Contains(err.Error(), "already exists") {
+			return fmt.Errorf("seed ddl collection: %w", err)
 		}
 		doc, _ := structpb.NewStruct(map[string]interface{}{"tag": "doc-" + m, "n": 1})
 		doc2, _ := structpb.NewStruct(map[string]interface{}{"tag": "doc2-" + m, "n": 2})
